@@ -179,6 +179,14 @@ Section TraceSpec.
     else copy_endo num zero d (vals_of s) p (Z.to_nat (Z.of_nat p + offset o)).
 End TraceSpec.
 
+(* the label sequences one traced solve_t can append: always an initial run of start, before, 0, 1, 2, ... and
+   'end' only at the very end, after at least one pass *)
+Inductive run_index : list tlabel -> Prop :=
+| RI_start : run_index [LStart]                                  (* rejected before the pre-hook *)
+| RI_before : run_index [LStart; LBefore]                         (* the pre-hook raised *)
+| RI_iters k : run_index (LStart :: LBefore :: map LIter (seq 0 (S k)))      (* k passes recorded, no 'end' *)
+| RI_end k : (1 <= k)%nat -> run_index (LStart :: LBefore :: map LIter (seq 0 (S k)) ++ [LEnd]).
+
 (* ==================================================================== the mixin *)
 Section TracerFacts.
   Variable num : Type.
@@ -463,7 +471,11 @@ Section TracerFacts.
         | LDone v' x' kk _ =>
             (j <= kk)%nat /\ (x' = Solved -> (S j <= kk)%nat) /\ (x' <> Solved -> v' = st_after kk) /\
             nth p (snd R) empty_trace = pushes (nth p x empty_trace) (iter_entries j kk ++ end_entry x' v')
-        | LRaise _ _ e _ => e <> NonConvergenceError
+        | LRaise _ _ e _ =>
+            (* an exception path: passes j+1 .. m were recorded, nothing else *)
+            e <> NonConvergenceError /\
+            exists m, (j <= m)%nat /\
+              nth p (snd R) empty_trace = pushes (nth p x empty_trace) (iter_entries j m)
         end.
 
       Lemma iter_entries_S j kk : (S j <= kk)%nat ->
@@ -476,9 +488,27 @@ Section TracerFacts.
         loop_post (S j) (upd p (push names reset (nth p x empty_trace) (LIter (S j)) (snap (st_after (S j)) t names)) x) R ->
         loop_post j x R.
       Proof.
-        intros Hlt. unfold loop_post. destruct (fst R) as [v' x' kk lg|]; [|auto].
-        intros (H1 & H2 & H3 & H4). split; [lia|]. split; [intros; lia|]. split; [exact H3|].
-        rewrite H4. rewrite nth_upd_eq by exact Hlt. rewrite (iter_entries_S j kk H1). reflexivity.
+        intros Hlt. unfold loop_post. destruct (fst R) as [v' x' kk lg|v' wr e lg].
+        - intros (H1 & H2 & H3 & H4). split; [lia|]. split; [intros; lia|]. split; [exact H3|].
+          rewrite H4. rewrite nth_upd_eq by exact Hlt. rewrite (iter_entries_S j kk H1). reflexivity.
+        - intros (He & m & Hm & Hn). split; [exact He|]. exists m. split; [lia|].
+          rewrite Hn. rewrite nth_upd_eq by exact Hlt. rewrite (iter_entries_S j m Hm). reflexivity.
+      Qed.
+
+      Lemma loop_post_raise_now j x v' wr e lg : e <> NonConvergenceError ->
+        loop_post j x (LRaise v' wr e lg, x).
+      Proof.
+        intros He. unfold loop_post. cbn [fst snd]. split; [exact He|]. exists j. split; [lia|].
+        unfold TracerFacts.iter_entries. rewrite Nat.sub_diag. reflexivity.
+      Qed.
+
+      Lemma loop_post_raise_after_pass j x v' wr e lg : (p < length x)%nat -> e <> NonConvergenceError ->
+        loop_post j x (LRaise v' wr e lg,
+                       upd p (push names reset (nth p x empty_trace) (LIter (S j)) (snap (st_after (S j)) t names)) x).
+      Proof.
+        intros Hlt He. unfold loop_post. cbn [fst snd]. split; [exact He|]. exists (S j). split; [lia|].
+        rewrite nth_upd_eq by exact Hlt. unfold TracerFacts.iter_entries.
+        replace (S j - j)%nat with 1%nat by lia. reflexivity.
       Qed.
 
       Lemma loop_post_stop j x x' lg : (p < length x)%nat -> x' <> Solved ->
@@ -507,7 +537,7 @@ Section TracerFacts.
           destruct (ev t em cf (S j) (st_after j)) as [v' r] eqn:E. cbn [fst] in Hsh.
           assert (Hv' : v' = st_after (S j)).
           { cbn [SolverFacts.st_after]. unfold evk. rewrite E. reflexivity. }
-          destruct r as [c|]; [unfold loop_post; cbn [fst]; discriminate|].
+          destruct r as [c|]; [apply loop_post_raise_now; discriminate|].
           pose proof (InvOn_lt _ _ HI) as Hlt.
           assert (Hs1 : shape v' = sh0) by (rewrite Hsh; exact (proj1 HI)).
           pose proof (proj2 (trace_t_step (LIter (S j)) v' x
@@ -516,7 +546,7 @@ Section TracerFacts.
           set (x1 := upd p _ x) in *.
           destruct (negb (all_finite num isfin cur)); [apply loop_post_step; [exact Hlt|apply IH; exact HI1]|].
           destruct (negb (all_finite num isfin (get_check num zero d (st_after (S j)) ps))).
-          + destruct (errors o); try (unfold loop_post; cbn [fst]; discriminate).
+          + destruct (errors o); try (apply loop_post_raise_after_pass; [exact Hlt|discriminate]).
             * apply loop_post_stop; [exact Hlt|discriminate].
             * destruct n; [apply loop_post_stop; [exact Hlt|discriminate]|].
               apply loop_post_step; [exact Hlt|apply IH; exact HI1].
@@ -526,7 +556,7 @@ Section TracerFacts.
             destruct (conv num sub absf ltb (tol o) _ cur); [|apply loop_post_step; [exact Hlt|apply IH; exact HI1]].
             rewrite (traced_after_on_eq (S j) (st_after (S j)) x1 HI1).
             destruct (after t em cf (S j) (st_after (S j))) as [v'' r'].
-            destruct r' as [c|]; [unfold loop_post; cbn [fst]; discriminate|].
+            destruct r' as [c|]; [apply loop_post_raise_after_pass; [exact Hlt|discriminate]|].
             unfold loop_post. cbn [fst snd]. split; [lia|]. split; [intros; lia|]. split; [congruence|].
             pose proof (InvOn_lt _ _ HI1) as Hlt1.
             rewrite nth_upd_eq by exact Hlt1. subst x1. rewrite nth_upd_eq by exact Hlt.
@@ -704,8 +734,8 @@ Section TracerFacts.
         + split; [reflexivity|]. split; [reflexivity|]. split.
           { destruct x; cbn [st_eqb]; split; intros Q; try discriminate Q; reflexivity. }
           split; [exact L2|]. split; [exact L3|]. rewrite L4, Hslot. reflexivity.
-      - cbn [Solver.finish] in Hrun. inversion Hrun; subst. destruct Hout as [Q|[Q|Q]]; try discriminate Q.
-        inversion Q; subst. congruence.
+      - destruct LT as [LT _]. cbn [Solver.finish] in Hrun. inversion Hrun; subst.
+        destruct Hout as [Q|[Q|Q]]; try discriminate Q. inversion Q; subst. congruence.
     Qed.
 
     Theorem trace_of_run d o t s tr p s' tr' out :
@@ -743,6 +773,96 @@ Section TracerFacts.
         destruct (Z.of_nat (length tr) <=? Z.of_nat p + offset o).
         { inversion Hrun; subst. destruct Hout as [Q|[Q|Q]]; discriminate Q. }
         apply (trace_of_run_core d o t s tr p s' tr' out _ Ha Hv Hp Hw (shape_copy_endo num zero d _ p _) Hrun Hout).
+    Qed.
+
+    Lemma map_fst_iter_entries o t v1 names j kk :
+      map fst (iter_entries num zero ev o t v1 names j kk) = map LIter (seq (S j) (kk - j)).
+    Proof. unfold iter_entries. rewrite map_map. reflexivity. Qed.
+
+    (* EVERY path (any exception included): what the call appends to the period's Trace is a run
+       start [, before [, 0, 1, .., m [, end]]] — never a gap, never a label out of order, 'end' only last *)
+    Theorem trace_every_path d o t s tr p :
+      truthy a = true ->
+      names_valid (vals_of s) t (names_of cfg (length (vals_of s)) a) ->
+      py_pos (length tr) t = Some p -> length tr = length (status s) ->
+      reset = true \/ width_ok (nth p tr empty_trace) (length (names_of cfg (length (vals_of s)) a)) ->
+      let R := traced_solve_t cfg a reset ev before after d o t s tr in
+      exists l, run_index (map fst l) /\
+        nth p (snd (fst R)) empty_trace
+        = pushes num (names_of cfg (length (vals_of s)) a) reset (nth p tr empty_trace) l.
+    Proof.
+      intros Ha Hv Hp Hlen Hw. cbv zeta.
+      unfold Tracer.traced_solve_t. rewrite Ha.
+      rewrite (trace_t_ok cfg t LStart a reset (vals_of s) tr p Hv Hp Hw).
+      set (names := names_of cfg (length (vals_of s)) a) in *.
+      set (X := nth p tr empty_trace) in *.
+      set (tr1 := upd p (push names reset X LStart (snap (vals_of s) t names)) tr).
+      pose proof (py_pos_lt _ _ _ Hp) as Hlt.
+      assert (Hearly : forall (s0 : mstate num) (out0 : outcome bool),
+                 exists l, run_index (map fst l) /\
+                   nth p (snd (fst ((s0, tr1), out0))) empty_trace = pushes num names reset X l).
+      { intros s0 out0. exists [(LStart, snap (vals_of s) t names)]. split; [apply RI_start|].
+        cbn [fst snd]. subst tr1. rewrite nth_upd_eq by exact Hlt. reflexivity. }
+      unfold Tracer.solve_t_E.
+      destruct (max_iter o <? min_iter o); [apply Hearly|].
+      rewrite <- Hlen, Hp.
+      destruct (negb (feasible d (length tr) p)); [apply Hearly|].
+      set (pre := if offset o =? 0 then inl (vals_of s) else _).
+      assert (Hpre : match pre with inl v0 => shape v0 = shape (vals_of s) | inr _ => True end).
+      { subst pre. destruct (offset o =? 0); [reflexivity|].
+        destruct (_ <? 0); [exact Logic.I|]. destruct (_ <=? _); [exact Logic.I|]. apply shape_copy_endo. }
+      destruct pre as [v0|e]; [|apply Hearly].
+      assert (Hnv : length (shape (vals_of s)) = length (vals_of s)) by (unfold TracerFacts.shape; apply map_length).
+      assert (Hnames : forall v, shape v = shape (vals_of s) -> names_valid v t names).
+      { intros v Hs. apply (names_valid_shape (vals_of s)); [symmetry; exact Hs|exact Hv]. }
+      assert (HI0 : InvOn cfg a reset p (shape (vals_of s)) tr (length (vals_of s)) v0 tr1).
+      { unfold InvOn. fold names. subst tr1. split; [exact Hpre|]. split; [apply upd_length|]. split.
+        - right. rewrite nth_upd_eq by exact Hlt. apply push_width; [exact Hw|apply snap_length].
+        - intros q Hq. apply nth_upd_neq. congruence. }
+      destruct (is_raise (errors o) && negb (all_finite num isfin (get_check num zero d v0 p))); [apply Hearly|].
+      rewrite (traced_before_on_eq cfg a reset before before_shape t p _ tr Hp _ Hnv Hnames Ha o 0%nat v0 tr1 HI0).
+      cbv zeta. fold names.
+      pose proof (before_shape t (errors o) (catch_first o) 0%nat v0) as Hsh1.
+      destruct (before t (errors o) (catch_first o) 0%nat v0) as [v1 r]. cbn [fst] in Hsh1.
+      assert (Hs1 : shape v1 = shape (vals_of s)) by congruence.
+      set (x1 := upd p (push names reset (nth p tr1 empty_trace) LBefore (snap v0 t names)) tr1).
+      pose proof (proj2 (trace_t_step cfg a reset t p _ tr Hp _ Hnv Hnames LBefore v0 tr1 HI0) v1 Hs1) as HI1.
+      fold names in HI1. fold x1 in HI1.
+      assert (Hx1 : nth p x1 empty_trace
+                    = push names reset (push names reset X LStart (snap (vals_of s) t names)) LBefore (snap v0 t names)).
+      { subst x1. rewrite nth_upd_eq by (subst tr1; rewrite upd_length; exact Hlt).
+        subst tr1. rewrite nth_upd_eq by exact Hlt. reflexivity. }
+      destruct r as [c|].
+      { exists [(LStart, snap (vals_of s) t names); (LBefore, snap v0 t names)]. split; [apply RI_before|].
+        cbn [fst snd]. rewrite Hx1. reflexivity. }
+      set (x3 := upd p (push names reset (nth p x1 empty_trace) (LIter 0) (snap v1 t names)) x1).
+      pose proof (proj2 (trace_t_step cfg a reset t p _ tr Hp _ Hnv Hnames (LIter 0) v1 x1 HI1) v1 Hs1) as HI3.
+      fold names in HI3. fold x3 in HI3.
+      assert (Hx3 : nth p x3 empty_trace
+                    = push names reset (push names reset (push names reset X LStart (snap (vals_of s) t names))
+                                         LBefore (snap v0 t names)) (LIter 0) (snap v1 t names)).
+      { subst x3. rewrite nth_upd_eq by (destruct HI1 as (_ & Hl & _); rewrite Hl; exact Hlt). rewrite Hx1. reflexivity. }
+      pose proof (loopE_trace cfg a reset ev after ev_shape after_shape t p _ tr Hp _ Hnv Hnames Ha d o p v1
+                              (Z.to_nat (max_iter o)) 0%nat x3 (get_check num zero d v0 p) (log s ++ [EvBefore t]) HI3) as LT.
+      cbn [SolverFacts.st_after] in LT. unfold loop_post in LT. fold names in LT.
+      destruct (loopE traces _ _ d o t p (Z.to_nat (max_iter o)) 1 v1 x3 _ _) as [r x2]. cbn [fst snd] in LT.
+      destruct (finish num o s p r) as [s'' out'] eqn:EF. cbn [fst snd].
+      destruct r as [v' x kk lg'|v' wr e lg'].
+      - destruct LT as (L1 & L2 & L3 & L4).
+        exists ([(LStart, snap (vals_of s) t names); (LBefore, snap v0 t names); (LIter 0, snap v1 t names)]
+                ++ iter_entries num zero ev o t v1 names 0 kk ++ end_entry num zero t names x v').
+        split.
+        + rewrite !map_app, map_fst_iter_entries, Nat.sub_0_r. cbn [map fst app].
+          unfold end_entry. destruct (st_eqb x Solved) eqn:Ex.
+          * cbn [map fst]. apply (RI_end kk). apply L2. destruct x; try discriminate Ex; reflexivity.
+          * cbn [map]. rewrite app_nil_r. apply (RI_iters kk).
+        + rewrite L4, Hx3. reflexivity.
+      - destruct LT as (_ & m & Hm & Hn).
+        exists ([(LStart, snap (vals_of s) t names); (LBefore, snap v0 t names); (LIter 0, snap v1 t names)]
+                ++ iter_entries num zero ev o t v1 names 0 m).
+        split.
+        + rewrite !map_app, map_fst_iter_entries, Nat.sub_0_r. cbn [map fst app]. apply (RI_iters m).
+        + rewrite Hn, Hx3. reflexivity.
     Qed.
   End SolveT.
 
